@@ -330,8 +330,21 @@ class SymArray(_np.ndarray):
 
 def _sel(i, vals):
     """If-chain selecting vals[i] for symbolic int i"""
+    if all(v is vals[0] for v in vals):
+        return vals[0]
+    if all(isinstance(v, _np.ndarray) for v in vals):
+        shp = vals[0].shape
+        if any(v.shape != shp for v in vals):
+            raise PathAbort("symbolic index over arrays of different shapes")
+        out = _np.empty(shp, dtype=object)
+        raws = [_np.asarray(_raw(v), dtype=object) for v in vals]
+        for idx in _np.ndindex(shp):
+            out[idx] = _sel(i, [r[idx] for r in raws])
+        return _post(out)
     if all(not isinstance(v, (SV, SB)) for v in vals) and len(set(map(repr, vals))) == 1:
         return vals[0]
+    if any(v is None for v in vals):
+        raise PathAbort("symbolic index over entries that are None")
     if any(isinstance(v, (SB, bool, _np.bool_)) for v in vals):
         e = bexpr(vals[-1])
         for k in range(len(vals) - 2, -1, -1):
@@ -883,6 +896,8 @@ class NpProxy(types.ModuleType):
         if isinstance(fill_value, (SV, SB)) or (self._is_float_dtype(dtype, fill_value) and fill_value is not None
                                                 and not isinstance(fill_value, (_np.ndarray, list, tuple))):
             return obj_array(shape, fill_value if isinstance(fill_value, (SV, SB)) else float(fill_value))
+        if fill_value is None:
+            return _np.full(shape, None, dtype=object).view(SymArray)
         if isinstance(fill_value, (_np.ndarray, list, tuple)) and _contains_sym(fill_value):
             out = _np.empty(shape, dtype=object)
             out[...] = _raw(_objify(fill_value))
